@@ -566,4 +566,122 @@ theorem extract_long_handshake (mask : MaskFn) (env : Env) (isServer : Bool) (gu
               simp only [g6, m6, if_false, eP, eS, hlen, drop6, List.map_cons, List.map_nil, ofPkt, Pkt.tokenLen, Pkt.packetLen]
               simp [hpn, hlb]
 
+set_option maxHeartbeats 1000000 in
+theorem extract_long_rtt0 (mask : MaskFn) (env : Env) (isServer : Bool) (guessed : Bytes) (ts : Nat) (fb a b c e dl : UInt8)
+    (r : Bytes) (keys : Dict (List Nat) Bytes) (cs : Option Bytes)
+    (hk : ∀ n, keys (keyName n) = env.keys n) (hc : env.chacha = decide (cs = some [0x13, 0x03]))
+    (hz : Bytes.beNat (fb :: a :: b :: c :: e :: dl :: r) ≠ 0) (hs : isLong fb = true)
+    (hver : ¬ [a, b, c, e] = [0, 0, 0, 0]) (hpt : packetType fb = .rtt0) :
+    Gen.Py.extract_quic_packet (maskE mask) isServer guessed keys cs (fb :: a :: b :: c :: e :: dl :: r) ts =
+      .ok ((extract mask env isServer guessed ts (fb :: a :: b :: c :: e :: dl :: r)).pkts.map ofPkt)
+        { tls_data := (extract mask env isServer guessed ts (fb :: a :: b :: c :: e :: dl :: r)).rest } := by
+  have kCE := hk .clientEarly
+  simp only [keyName] at kCE
+  have S0 : Bytes.slice (fb :: a :: b :: c :: e :: dl :: r) 1 5 = [a, b, c, e] := by simp [Bytes.slice]
+  have S1 : Bytes.slice (fb :: a :: b :: c :: e :: dl :: r) (6 + dl.toNat) (7 + dl.toNat) = List.take 1 (List.drop dl.toNat r) := by
+    rw [seven, slice6]; congr 1; omega
+  have hdl : dl.toNat < 256 := by simpa using dl.toNat_lt
+  have t0 : ¬ List.length r + 6 < 6 := by omega
+  cases isServer <;> long_start hz hs hver hpt
+  all_goals
+    simp only [extractLong, protectedTail, need, bind, Except.bind, Dissect.ofOpt, slice_add, hpt, kCE, hc,
+      remove_header_protection_eq_model]
+    unpack_norm
+    simp only [S0, S1, hver, Nat.add_assoc, Nat.reduceAdd, Nat.add_zero, drop6, drop7, List.drop_drop, List.drop_zero, if_true, if_false,
+      decide_true, t0, hdl]
+    by_cases hA : List.length r < dl.toNat
+    · have g1 : List.length r + 6 < 1 + (4 + (1 + dl.toNat)) := by omega
+      have m1 : List.length r + 6 < 6 + dl.toNat := by omega
+      simp only [g1, m1, if_true]; simp
+    have g1 : ¬ List.length r + 6 < 1 + (4 + (1 + dl.toNat)) := by omega
+    have m1 : ¬ List.length r + 6 < 6 + dl.toNat := by omega
+    simp only [g1, m1, if_false]
+    by_cases hB : List.length r < dl.toNat + 1
+    · have g2 : List.length r + 6 < 1 + (4 + (1 + (dl.toNat + 1))) := by omega
+      have m2 : List.length r + 6 < 7 + dl.toNat := by omega
+      simp only [g2, m2, if_true]; simp
+    have g2 : ¬ List.length r + 6 < 1 + (4 + (1 + (dl.toNat + 1))) := by omega
+    have m2 : ¬ List.length r + 6 < 7 + dl.toNat := by omega
+    simp only [g2, m2, if_false]
+    cases hv : decodeVarint (List.take 1 (List.drop dl.toNat r)) with
+    | none => simp
+    | some v =>
+      have hv64 := decodeVarint_take1 _ _ hv
+      have hv256 : v < 256 := by omega
+      have hbv : (UInt8.ofNat v).toNat = v := by
+        simp only [UInt8.toNat_ofNat']; omega
+      simp only [hv256, if_true]
+      by_cases hC : List.length r < dl.toNat + 1 + v
+      · have g3 : List.length r + 6 < 1 + (4 + (1 + (dl.toNat + (1 + v)))) := by omega
+        have m3 : List.length r + 6 < 7 + (dl.toNat + v) := by omega
+        simp only [g3, m3, if_true]; simp
+      have g3 : ¬ List.length r + 6 < 1 + (4 + (1 + (dl.toNat + (1 + v)))) := by omega
+      have m3 : ¬ List.length r + 6 < 7 + (dl.toNat + v) := by omega
+      have L1 : (List.take dl.toNat r).length = dl.toNat := by rw [List.length_take]; omega
+      have L2 : (List.take v (List.drop (1 + dl.toNat) r)).length = v := by rw [List.length_take, List.length_drop]; omega
+      have L2' : (List.take v (List.drop (dl.toNat + 1) r)).length = v := by rw [List.length_take, List.length_drop]; omega
+      have eD : List.drop (1 + (dl.toNat + v)) r = List.drop (dl.toNat + (1 + v)) r := by congr 1; omega
+      simp only [g3, m3, if_false, L1, L2, L2', hbv, eD]
+      by_cases hD : List.length r < dl.toNat + 1 + v + 1
+      · have g4 : List.length r + 6 < 1 + (4 + (1 + (dl.toNat + (1 + (v + 1))))) := by omega
+        have m4 : List.length r + 6 < 7 + (dl.toNat + (v + 1)) := by omega
+        simp only [g4, m4, if_true]; simp
+      have g4 : ¬ List.length r + 6 < 1 + (4 + (1 + (dl.toNat + (1 + (v + 1))))) := by omega
+      have m4 : ¬ List.length r + 6 < 7 + (dl.toNat + (v + 1)) := by omega
+      simp only [g4, m4, if_false]
+      cases hpl : getVarintLength (List.take 1 (List.drop (dl.toNat + (1 + v)) r)) with
+      | none => simp
+      | some pll =>
+        simp only []
+        by_cases hE : List.length r < dl.toNat + 1 + v + pll
+        · have g5 : List.length r + 6 < 1 + (4 + (1 + (dl.toNat + (1 + (v + pll))))) := by omega
+          have m5 : List.length r + 6 < 7 + (dl.toNat + (v + pll)) := by omega
+          simp only [g5, m5, if_true]; simp
+        have g5 : ¬ List.length r + 6 < 1 + (4 + (1 + (dl.toNat + (1 + (v + pll))))) := by omega
+        have m5 : ¬ List.length r + 6 < 7 + (dl.toNat + (v + pll)) := by omega
+        simp only [g5, m5, if_false]
+        cases hpn : decodeVarint (List.take pll (List.drop (dl.toNat + (1 + v)) r)) with
+        | none => simp
+        | some plen =>
+          have hfit := varint_fits _ _ _ hpl hpn
+          have htb : toBytesE (plen : Int) (pll : Int) = .ok (Bytes.ofNatBE pll plen) := by
+            have := toBytesE_nat plen pll hfit
+            simpa using this
+          simp only [htb, tryE_ok, beNat_ofNatBE _ _ hfit]
+          generalize env.keys _ = K
+          cases K with
+          | none => simp
+          | some key =>
+            simp only []
+            generalize removeHP mask true _ fb key _ _ _ = R
+            cases R with
+            | error er => simp [dErr_ne_fuel]
+            | ok w =>
+              obtain ⟨fb', pn, l⟩ := w
+              simp only []
+              by_cases hF : plen < l
+              · have hf : fOk (Fld.S ((plen : Int) - (l : Int))) = false := by
+                  simp only [fOk, decide_eq_false_iff_not]; omega
+                simp only [hf, hF, Bool.false_eq_true, if_false, if_true]; simp
+              have hf : fOk (Fld.S ((plen : Int) - (l : Int))) = true := by
+                simp only [fOk, decide_eq_true_eq]; omega
+              have hn : fNat (Fld.S ((plen : Int) - (l : Int))) = plen - l := by simp only [fNat]; omega
+              have ht : ((plen : Int) - (l : Int)).toNat = plen - l := by omega
+              simp only [hf, hn, ht, hF, if_true, if_false]
+              by_cases hG : List.length r < dl.toNat + 1 + v + pll + l + (plen - l)
+              · have g6 : List.length r + 6 < 1 + (4 + (1 + (dl.toNat + (1 + (v + (pll + (l + (plen - l)))))))) := by omega
+                have m6 : List.length r + 6 < 7 + (dl.toNat + (v + (pll + (l + (plen - l))))) := by omega
+                simp only [g6, m6, if_true]; simp
+              have g6 : ¬ List.length r + 6 < 1 + (4 + (1 + (dl.toNat + (1 + (v + (pll + (l + (plen - l)))))))) := by omega
+              have m6 : ¬ List.length r + 6 < 7 + (dl.toNat + (v + (pll + (l + (plen - l))))) := by omega
+              have eP : List.drop (1 + (dl.toNat + (v + (pll + l)))) r = List.drop (dl.toNat + (1 + (v + (pll + l)))) r := by
+                congr 1; omega
+              have eS : List.drop (dl.toNat + 1) r = List.drop (1 + dl.toNat) r := by congr 1; omega
+              have hlen : (List.take (plen - l) (List.drop (dl.toNat + (1 + (v + (pll + l)))) r)).length = plen - l := by
+                rw [List.length_take, List.length_drop]; omega
+              have hlb : (List.take pll (List.drop (dl.toNat + (1 + v)) r)).length = pll := by
+                rw [List.length_take, List.length_drop]; omega
+              simp only [g6, m6, if_false, eP, eS, hlen, drop6, List.map_cons, List.map_nil, ofPkt, Pkt.tokenLen, Pkt.packetLen]
+              simp [hpn, hlb]
+
 end TLX.Props.Translated
